@@ -60,7 +60,7 @@ Ltac astrip :=
 
 Theorem step_Al s e : Al s -> Al (step s e).
 Proof.
-  intros A. destruct e as [k tmo| | | |how|r|o|o|o|dt|k tmo|o]; unfold step.
+  intros A. destruct e as [k tmo| | | |how|r|o|o|o|dt|o|k tmo|o]; unfold step.
   - (* Start *) destruct (next_msgid (last s) (inuse s)); try exact A.
     destruct (is_running s); (eapply Al_app; [exact A|reflexivity|]); apply alc_not; cbn; try destruct k; discriminate.
   - (* DrvOp *) destruct (is_running s); cbn [negb]; [|exact A].
@@ -98,6 +98,7 @@ Proof.
   - (* StreamFinish *) destruct (getop s o) as [c|] eqn:Ec; [|exact A].
     destruct (o_status c); try exact A; try destruct (fix20 (fx s)); destruct (is_running s); repeat astrip; exact A.
   - (* Advance *) repeat astrip; exact A.
+  - (* ViaHandle *) repeat astrip; exact A.
   - (* Alloc *) unfold alloc. destruct (next_msgid (last s) (inuse s)); try exact A.
     eapply Al_app; [exact A|reflexivity|]. intros _. cbn. now repeat split.
   - (* Enqueue *) unfold enqueue. destruct (getop s o) as [c|] eqn:Ec; [|exact A].
@@ -150,7 +151,7 @@ Proof.
   intros Hc I He. change (kept o c (step s e)). assert (H0 : kept o c s) by exact Hc. destruct I as (Ist & Irest). pose proof (conj Ist Irest) as I.
   assert (Hother : forall o' c', getop s o' = Some c' -> o_status c' <> CAlloc -> o' <> o).
   { intros o' c' H' Hn ->. rewrite Hc in H'. injection H' as <-. contradiction. }
-  destruct e as [k tmo| | | |how|r|o'|o'|o'|dt|k tmo|o']; unfold step.
+  destruct e as [k tmo| | | |how|r|o'|o'|o'|dt|o'|k tmo|o']; unfold step.
   - (* Start *) destruct (next_msgid (last s) (inuse s)); try exact H0.
     destruct (is_running s); (eapply kept_app; [exact H0|reflexivity]).
   - (* DrvOp *) destruct (is_running s); cbn [negb]; [|exact H0].
@@ -189,6 +190,7 @@ Proof.
     all: try destruct (fix20 (fx s)); destruct (is_running s); repeat kstrip I; try exact H0.
     all: intros E; now elim Hne.
   - (* Advance *) repeat kstrip I; exact H0.
+  - (* ViaHandle *) repeat kstrip I; exact H0.
   - (* Alloc *) unfold alloc. destruct (next_msgid (last s) (inuse s)); try exact H0. eapply kept_app; [exact H0|reflexivity].
   - (* Enqueue of another operation *) unfold enqueue. destruct (getop s o') as [c1|] eqn:Ec; [|exact H0].
     assert (Hne : o' <> o) by (intros ->; now elim He).
